@@ -34,6 +34,8 @@ enum Kind {
     Purged,
     Set,
     Assert,
+    /// purge, then present the new value, in one modify list
+    Replace,
 }
 
 #[derive(Clone, Copy, Debug, PartialEq, Eq)]
@@ -44,6 +46,9 @@ enum Shape {
     Batch,
     BatchSecondEntry,
     BatchAfterBenign,
+    /// the same modify list first renames the target (so that none of its unique attributes stays)
+    AfterRename,
+    BatchAfterRename,
 }
 
 #[derive(Clone, Copy, Debug, PartialEq, Eq)]
@@ -81,8 +86,16 @@ enum Case {
     },
 }
 
+fn uuid_mods(kind: Kind, v: Uuid) -> Vec<Modify> {
+    if kind == Kind::Replace {
+        return vec![Modify::Purged(Attribute::Uuid), Modify::Present(Attribute::Uuid, Value::Uuid(v))];
+    }
+    vec![uuid_mod(kind, v)]
+}
+
 fn uuid_mod(kind: Kind, v: Uuid) -> Modify {
     match kind {
+        Kind::Replace => Modify::Purged(Attribute::Uuid),
         Kind::Present => Modify::Present(Attribute::Uuid, Value::Uuid(v)),
         Kind::Removed => Modify::Removed(Attribute::Uuid, PartialValue::Uuid(v)),
         Kind::Purged => Modify::Purged(Attribute::Uuid),
@@ -101,7 +114,7 @@ fn mail_v(tag: &str) -> Value {
 /// the positive-control modification: the same kind on `mail` (multi-valued, allowed on every target kind)
 fn desc_mod(kind: Kind, tag: &str) -> Modify {
     match kind {
-        Kind::Present | Kind::Set | Kind::Assert => Modify::Present(Attribute::Mail, mail_v(tag)),
+        Kind::Present | Kind::Set | Kind::Assert | Kind::Replace => Modify::Present(Attribute::Mail, mail_v(tag)),
         Kind::Removed => Modify::Removed(
             Attribute::Mail,
             PartialValue::new_email_address_s(&format!("{tag}@c20.example.com")),
@@ -113,7 +126,7 @@ fn desc_mod(kind: Kind, tag: &str) -> Modify {
 /// Would applying this modification alter the stored uuid value set of an entry whose uuid is `own`?
 fn would_change(kind: Kind, v: Uuid, own: Uuid) -> bool {
     match kind {
-        Kind::Present | Kind::Set => v != own,
+        Kind::Present | Kind::Set | Kind::Replace => v != own,
         Kind::Removed => v == own,
         Kind::Purged => true,
         Kind::Assert => false,
@@ -139,7 +152,7 @@ fn uuid_state_problem(before: &Dump, after: &Dump) -> Option<String> {
 fn all_cases(tier: kvcore::Tier, seed: u64, builtin: &[(Uuid, Option<String>)]) -> Vec<Case> {
     let mut cases = Vec::new();
     let actors = [U_PERSON_ACTOR, U_SA_ACTOR];
-    let kinds = [Kind::Present, Kind::Removed, Kind::Purged, Kind::Set, Kind::Assert];
+    let kinds = [Kind::Present, Kind::Removed, Kind::Purged, Kind::Set, Kind::Assert, Kind::Replace];
     let shapes = [
         Shape::Single,
         Shape::AfterBenign,
@@ -147,6 +160,8 @@ fn all_cases(tier: kvcore::Tier, seed: u64, builtin: &[(Uuid, Option<String>)]) 
         Shape::Batch,
         Shape::BatchSecondEntry,
         Shape::BatchAfterBenign,
+        Shape::AfterRename,
+        Shape::BatchAfterRename,
     ];
     let vals = [Val::Own, Val::OtherExisting, Val::FreshDynamic, Val::FreshReserved];
     let reps = tier.pick(1, 8);
@@ -168,7 +183,7 @@ fn all_cases(tier: kvcore::Tier, seed: u64, builtin: &[(Uuid, Option<String>)]) 
                                 on_uuid: true,
                             });
                         }
-                        if target != U_BUILTIN_GROUP && kind != Kind::Assert && kind != Kind::Set {
+                        if target != U_BUILTIN_GROUP && kind != Kind::Assert && kind != Kind::Set && kind != Kind::Replace && !matches!(shape, Shape::AfterRename | Shape::BatchAfterRename) {
                             cases.push(Case::Modify {
                                 actor,
                                 target,
@@ -323,8 +338,10 @@ fn run_case(
                 Val::FreshReserved => fresh_res,
             };
             let tag = format!("c20case{idx}");
-            let subject = if *on_uuid { uuid_mod(*kind, v) } else { desc_mod(*kind, &tag) };
+            let subject: Vec<Modify> = if *on_uuid { uuid_mods(*kind, v) } else { vec![desc_mod(*kind, &tag)] };
             let benign = Modify::Present(Attribute::Mail, mail_v(&format!("b{tag}")));
+            let rename = vec![Modify::Purged(Attribute::Name), Modify::Present(Attribute::Name, Value::new_iname(&format!("c20renamed{idx}")))];
+            let join = |a: Vec<Modify>, b: Vec<Modify>| -> Vec<Modify> { a.into_iter().chain(b).collect() };
             // for description removal controls make sure there is something to remove
             let actor_u = *actor;
             let target_u = *target;
@@ -343,22 +360,27 @@ fn run_case(
                 };
                 sv.user_op(|w| match shape_c {
                     Shape::Single => {
-                        let ml = ModifyList::new_list(vec![subject]);
+                        let ml = ModifyList::new_list(subject);
                         let me = ev_modify(w, ident, &f_uuid(target_u), &ml, false)?;
                         w.modify(&me)
                     }
                     Shape::AfterBenign => {
-                        let ml = ModifyList::new_list(vec![benign, subject]);
+                        let ml = ModifyList::new_list(join(vec![benign], subject));
+                        let me = ev_modify(w, ident, &f_uuid(target_u), &ml, false)?;
+                        w.modify(&me)
+                    }
+                    Shape::AfterRename => {
+                        let ml = ModifyList::new_list(join(rename, subject));
                         let me = ev_modify(w, ident, &f_uuid(target_u), &ml, false)?;
                         w.modify(&me)
                     }
                     Shape::BeforeBenign => {
-                        let ml = ModifyList::new_list(vec![subject, benign]);
+                        let ml = ModifyList::new_list(join(subject, vec![benign]));
                         let me = ev_modify(w, ident, &f_uuid(target_u), &ml, false)?;
                         w.modify(&me)
                     }
                     Shape::Batch => {
-                        let be = ev_batch(w, ident, &[(target_u, ModifyList::new_list(vec![subject]))])?;
+                        let be = ev_batch(w, ident, &[(target_u, ModifyList::new_list(subject))])?;
                         w.batch_modify(&be)
                     }
                     Shape::BatchSecondEntry => {
@@ -367,17 +389,17 @@ fn run_case(
                             ident,
                             &[
                                 (second, ModifyList::new_list(vec![benign])),
-                                (target_u, ModifyList::new_list(vec![subject])),
+                                (target_u, ModifyList::new_list(subject)),
                             ],
                         )?;
                         w.batch_modify(&be)
                     }
                     Shape::BatchAfterBenign => {
-                        let be = ev_batch(
-                            w,
-                            ident,
-                            &[(target_u, ModifyList::new_list(vec![benign, subject]))],
-                        )?;
+                        let be = ev_batch(w, ident, &[(target_u, ModifyList::new_list(join(vec![benign], subject)))])?;
+                        w.batch_modify(&be)
+                    }
+                    Shape::BatchAfterRename => {
+                        let be = ev_batch(w, ident, &[(target_u, ModifyList::new_list(join(rename, subject)))])?;
                         w.batch_modify(&be)
                     }
                 })
